@@ -490,7 +490,12 @@ impl<'a> Oracle<'a> {
                     };
                     let inner = strip(inner, "Box<").unwrap_or(inner);
                     match rm.find(inner) {
-                        Some(Item { kind: Kind::Struct { fields: gf, tuple: false }, .. }) => {
+                        Some(Item { kind: Kind::Struct { fields: gf, tuple: false }, attrs: gattrs, .. }) => {
+                            // the synthetic struct of a group is no type of the module: it has no extension marker of its own,
+                            // whatever EXTENSIBILITY IMPLIED says about the types the module defines
+                            if gattrs.non_exhaustive {
+                                self.disc("C05", "group-struct-extensible", "group".into(), format!("{w}: the struct hoisted for the group is #[non_exhaustive] (an extension bit of its own in PER)"));
+                            }
                             let got: Vec<&str> = gf.iter().map(|x| x.name.as_str()).collect();
                             let want: Vec<&str> = comps.iter().map(|c| c.name.as_str()).collect();
                             if got != want {
